@@ -4,6 +4,7 @@ import (
 	"encoding/hex"
 	"os"
 	"path/filepath"
+	"reflect"
 	"sort"
 	"strings"
 
@@ -12,6 +13,70 @@ import (
 	"verifharness/internal/gen"
 	"verifharness/internal/rng"
 )
+
+// mutateFields changes k exported scalar fields of the file in place (chosen through
+// reflection, so new fields are covered without listing them): the file stays "built
+// through the API" but is invalid in one spot, which lets validation run far.
+func mutateFields(r *rng.R, f *ach.File, k int) {
+	var fields []reflect.Value
+	var walk func(v reflect.Value, depth int)
+	walk = func(v reflect.Value, depth int) {
+		if depth > 10 {
+			return
+		}
+		switch v.Kind() {
+		case reflect.Pointer, reflect.Interface:
+			if !v.IsNil() {
+				walk(v.Elem(), depth+1)
+			}
+		case reflect.Struct:
+			t := v.Type()
+			for i := 0; i < v.NumField(); i++ {
+				if !t.Field(i).IsExported() && !t.Field(i).Anonymous {
+					continue
+				}
+				walk(v.Field(i), depth+1)
+			}
+		case reflect.Slice:
+			for i := 0; i < v.Len(); i++ {
+				walk(v.Index(i), depth+1)
+			}
+		case reflect.Int, reflect.String:
+			if v.CanSet() {
+				fields = append(fields, v)
+			}
+		}
+	}
+	walk(reflect.ValueOf(f), 0)
+	for ; k > 0 && len(fields) > 0; k-- {
+		v := fields[r.Intn(len(fields))]
+		switch v.Kind() {
+		case reflect.Int:
+			switch r.Intn(3) {
+			case 0:
+				v.SetInt(0)
+			case 1:
+				v.SetInt(v.Int() + 1)
+			default:
+				v.SetInt(int64(r.Intn(1000)))
+			}
+		case reflect.String:
+			s := v.String()
+			switch r.Intn(5) {
+			case 0:
+				v.SetString("")
+			case 1:
+				v.SetString(" " + s)
+			case 2:
+				v.SetString(s + " ")
+			case 3:
+				v.SetString(strings.ToLower(s))
+			default:
+				v.SetString(s + "x")
+			}
+		}
+	}
+}
 
 // genValidFile: a valid file from the shared generator; the seed also picks the content options.
 func genValidFile(fc fileCase) *ach.File {
@@ -23,7 +88,7 @@ func genValidFile(fc fileCase) *ach.File {
 	} else {
 		f = gen.File(r, gen.Opts{IAT: b&16 != 0, Returns: b&32 != 0, NOC: b&64 != 0, Addenda: b&128 != 0, Offset: b&256 != 0, NonASCII: b&512 != 0 && b&1024 != 0})
 	}
-	if !fc.NoOpts && fc.Kind == "gen" {
+	if !fc.NoOpts && fc.Kind != "gentext" {
 		f.SetValidation(optsFromMask(fc.Opts))
 	}
 	return f
@@ -82,21 +147,23 @@ func genFileCase(r *rng.R, fx []fixture) fileCase {
 	}
 	pick := r.Intn(100)
 	switch {
-	case pick < 25 && len(ach) > 0: // fixture under random options
+	case pick < 20 && len(ach) > 0: // fixture under random options
 		f := rng.Pick(r, ach)
 		return fileCase{Kind: "reader", Name: f.name, TextHex: hex.EncodeToString(f.data), Opts: randMask(r), NoOpts: r.Chance(1, 4)}
-	case pick < 55 && len(ach) > 0: // mutated fixture
+	case pick < 45 && len(ach) > 0: // mutated fixture
 		f := rng.Pick(r, ach)
 		data := mutate(r, f.data)
 		return fileCase{Kind: "reader", Name: f.name + " (mutated)", TextHex: hex.EncodeToString(data), Opts: randMask(r), NoOpts: r.Chance(1, 4)}
-	case pick < 65: // arbitrary bytes / record-shaped noise
+	case pick < 52: // arbitrary bytes / record-shaped noise
 		return fileCase{Kind: "reader", Name: "noise", TextHex: hex.EncodeToString(noise(r)), Opts: randMask(r), NoOpts: r.Chance(1, 4)}
-	case pick < 72 && len(js) > 0:
+	case pick < 57 && len(js) > 0:
 		f := rng.Pick(r, js)
 		return fileCase{Kind: "json", Name: f.name, TextHex: hex.EncodeToString(f.data), Opts: randMask(r), NoOpts: r.Chance(1, 2)}
-	case pick < 82:
+	case pick < 66:
 		return fileCase{Kind: "gen", Seed: r.U64() | 1, Opts: randMask(r), NoOpts: r.Chance(1, 2)}
-	case pick < 88:
+	case pick < 78:
+		return fileCase{Kind: "genmut", Seed: r.U64() | 1, Opts: randMask(r), NoOpts: r.Chance(2, 3)}
+	case pick < 84:
 		return fileCase{Kind: "gentext", Seed: r.U64() | 1, Opts: randMask(r), NoOpts: r.Chance(1, 2)}
 	default:
 		return fileCase{Kind: "api", Seed: r.U64() | 1, Opts: randMask(r), NoOpts: r.Chance(1, 3)}
